@@ -147,3 +147,6 @@ pub use crate::cluster::verif_state_hooks as cluster;
 
 /// The real stream-id bookkeeping and connection router, drivable without a session.
 pub use crate::network::verif_connection_hooks as connection;
+
+/// The real request execution loop with synthetic attempts.
+pub use crate::client::verif_execution_hooks as execution;
